@@ -344,6 +344,11 @@ func (s *state) mk(id int, kind, proto string) string {
 		v = s.r.ToValue(map[string]interface{}{"a": 101})
 	case "goslice":
 		v = s.r.ToValue([]interface{}{101, 102})
+	case "goslicecap":
+		// the same wrapper over a slice with spare capacity (growth within cap is a different path in the wrapper)
+		sl := make([]interface{}, 2, 8)
+		sl[0], sl[1] = 101, 102
+		v = s.r.ToValue(sl)
 	case "gostruct":
 		v = s.r.ToValue(&goStruct{A: 101, B: "x"})
 	case "dynarr":
